@@ -15,6 +15,10 @@ RULE = (
     "model 'pairs not shared by all jobs' and the reconstruction law diff+common == state point. Non-trivial and "
     "distinct = distinct (corpus, subset, exclude_const) with >= 2 selected jobs and >= 1 non-constant key."
 )
+RULE += (
+    " " + 'Added later: selections holding ids of jobs removed after their state points were cached; sibling leaves three levels down; key names resembling namespace prefixes; the empty-string key holding a mapping; lists holding mappings (same value, keys in either order).'
+    " In every third case DEBUG logging is effective for the package."
+)
 ASSUMPTIONS = [
     "Within one type group values are a Python set (== decides identity, so (1,) and (1.0,) are one list value).",
     "Empty-mapping values are outside the stated universe and are not generated.",
